@@ -18,7 +18,9 @@ pub struct TableDP {
     pub hstar: Vec<Vec<Option<isize>>>, // [k][b], k in 0..=n
 }
 #[derive(Clone, Debug)]
-pub struct Knap { pub n: usize, pub cap: usize, pub profit: Vec<isize>, pub weight: Vec<usize>, pub rub_mode: usize, pub dom_mode: usize }
+/// `free`: depth-free variant with long arcs (token `L`): the state is the capacity alone, a variable whose item does not fit does
+/// not impact the state, the rough bound and the dominance key do not use the depth
+pub struct Knap { pub n: usize, pub cap: usize, pub profit: Vec<isize>, pub weight: Vec<usize>, pub rub_mode: usize, pub dom_mode: usize, pub free: bool }
 
 #[derive(Clone, Debug)]
 pub enum Fam { Table(TableDP), Knap(Knap) }
@@ -93,7 +95,7 @@ impl Knap {
         let weight: Vec<usize> = (0..n).map(|_| rng.range(1, 6) as usize).collect();
         let profit: Vec<isize> = (0..n).map(|_| rng.range(1, 9) as isize).collect();
         let cap = rng.range(3, (weight.iter().sum::<usize>() as i64 * 2 / 3).max(4)) as usize;
-        Knap { n, cap, profit, weight, rub_mode: rng.below(2) as usize, dom_mode: 1 }
+        Knap { n, cap, profit, weight, rub_mode: rng.below(2) as usize, dom_mode: 1, free: false }
     }
     pub fn depth(code: i64) -> usize { (code / 1000) as usize }
     pub fn cap(code: i64) -> usize { (code % 1000) as usize }
@@ -104,7 +106,7 @@ impl Knap {
         if c >= self.weight[k] { skip.max(self.profit[k] + self.hstar(k + 1, c - self.weight[k])) } else { skip }
     }
     pub fn tokens(&self) -> String {
-        format!("K {} {} {} {} {} {}", self.n, self.cap, self.rub_mode, self.dom_mode,
+        format!("{} {} {} {} {} {} {}", if self.free { "L" } else { "K" }, self.n, self.cap, self.rub_mode, self.dom_mode,
             self.profit.iter().map(|x| x.to_string()).collect::<Vec<_>>().join(" "), self.weight.iter().map(|x| x.to_string()).collect::<Vec<_>>().join(" "))
     }
     pub fn random(rng: &mut Rng) -> Knap {
@@ -112,7 +114,15 @@ impl Knap {
         let weight: Vec<usize> = (0..n).map(|_| rng.range(0, 6) as usize).collect();
         let profit: Vec<isize> = (0..n).map(|_| { let lo = if rng.chance(1, 5) { -2 } else { 0 }; rng.range(lo, 9) as isize }).collect();
         let cap = rng.range(0, (weight.iter().sum::<usize>() as i64).max(1)) as usize;
-        Knap { n, cap, profit, weight, rub_mode: rng.below(2) as usize, dom_mode: rng.below(2) as usize }
+        Knap { n, cap, profit, weight, rub_mode: rng.below(2) as usize, dom_mode: rng.below(2) as usize, free: false }
+    }
+    /// long arcs: positive weights, several items that do not fit once something has been taken
+    pub fn random_long(rng: &mut Rng) -> Knap {
+        let n = rng.range(3, 7) as usize;
+        let weight: Vec<usize> = (0..n).map(|_| rng.range(1, 7) as usize).collect();
+        let profit: Vec<isize> = (0..n).map(|_| rng.range(0, 9) as isize).collect();
+        let cap = rng.range(2, (weight.iter().sum::<usize>() as i64 / 2).max(3)) as usize;
+        Knap { n, cap, profit, weight, rub_mode: rng.below(2) as usize, dom_mode: if rng.chance(2, 3) { 1 } else { 0 }, free: true }
     }
 }
 impl Fam {
@@ -120,7 +130,7 @@ impl Fam {
     pub fn n(&self) -> usize { match self { Fam::Table(t) => t.n, Fam::Knap(k) => k.n } }
     /// potential of a state at a depth (exact value-to-go for exact states)
     pub fn h(&self, depth: usize, s: i64) -> Option<isize> {
-        match self { Fam::Table(t) => t.hset(depth, s), Fam::Knap(k) => Some(k.hstar(Knap::depth(s), Knap::cap(s))) }
+        match self { Fam::Table(t) => t.hset(depth, s), Fam::Knap(k) => Some(k.hstar(if k.free { depth } else { Knap::depth(s) }, Knap::cap(s))) }
     }
     pub fn has_dominance(&self) -> bool { match self { Fam::Table(t) => t.dom_mode != 0, Fam::Knap(k) => k.dom_mode != 0 } }
     pub fn parse(t: &[&str]) -> (Fam, usize) {
@@ -137,7 +147,7 @@ impl Fam {
             let n = p(1) as usize;
             let profit = (0..n).map(|j| p(5 + j) as isize).collect();
             let weight = (0..n).map(|j| p(5 + n + j) as usize).collect();
-            (Fam::Knap(Knap { n, cap: p(2) as usize, rub_mode: p(3) as usize, dom_mode: p(4) as usize, profit, weight }), 5 + 2 * n)
+            (Fam::Knap(Knap { n, cap: p(2) as usize, rub_mode: p(3) as usize, dom_mode: p(4) as usize, profit, weight, free: t[0] == "L" }), 5 + 2 * n)
         }
     }
 }
@@ -154,7 +164,7 @@ impl Problem for Fam {
                 for b in t.members(*s) { if let Some((b2, _)) = t.entry(k, b, d.value as usize) { m |= 1 << b2; } }
                 t.mk(m, TableDP::depth(*s) + 1)
             }
-            Fam::Knap(k) => Knap::mk(Knap::depth(*s) + 1, if d.value == 1 { Knap::cap(*s) - k.weight[d.variable.id()] } else { Knap::cap(*s) }),
+            Fam::Knap(k) => Knap::mk(if k.free { 0 } else { Knap::depth(*s) + 1 }, if d.value == 1 { Knap::cap(*s) - k.weight[d.variable.id()] } else { Knap::cap(*s) }),
         }
     }
     fn transition_cost(&self, s: &i64, _dst: &i64, d: Decision) -> isize {
@@ -175,7 +185,7 @@ impl Problem for Fam {
         }
     }
     fn is_impacted_by(&self, var: Variable, s: &i64) -> bool {
-        match self { Fam::Table(t) => t.members(*s).iter().any(|&b| t.imp[var.id() * t.b + b]), Fam::Knap(_) => true }
+        match self { Fam::Table(t) => t.members(*s).iter().any(|&b| t.imp[var.id() * t.b + b]), Fam::Knap(k) => !k.free || Knap::cap(*s) >= k.weight[var.id()] }
     }
 }
 impl Relaxation for Fam {
@@ -200,7 +210,7 @@ impl Relaxation for Fam {
                 let best = ks.iter().fold(None, |acc, &k| emax(acc, t.hset(k, *s)));
                 match best { None => LOW, Some(h) => if t.rub_mode == 1 { h } else { h + t.slack } }
             }
-            Fam::Knap(k) => if k.rub_mode == 0 { isize::MAX } else { (Knap::depth(*s)..k.n).map(|i| k.profit[i].max(0)).sum() },
+            Fam::Knap(k) => if k.rub_mode == 0 { isize::MAX } else if k.free { (0..k.n).filter(|i| k.weight[*i] <= Knap::cap(*s)).map(|i| k.profit[i].max(0)).sum() } else { (Knap::depth(*s)..k.n).map(|i| k.profit[i].max(0)).sum() },
         }
     }
 }
@@ -218,7 +228,7 @@ pub struct FamDom(pub Fam);
 impl Dominance for FamDom {
     type State = i64;
     type Key = i64;
-    fn get_key(&self, s: Arc<i64>) -> Option<i64> { match &self.0 { Fam::Table(_) => Some(*s), Fam::Knap(_) => Some(Knap::depth(*s) as i64) } }
+    fn get_key(&self, s: Arc<i64>) -> Option<i64> { match &self.0 { Fam::Table(_) => Some(*s), Fam::Knap(k) => Some(if k.free { 0 } else { Knap::depth(*s) as i64 }) } }
     fn nb_dimensions(&self, _: &i64) -> usize { match &self.0 { Fam::Table(_) => 0, Fam::Knap(_) => 1 } }
     fn get_coordinate(&self, s: &i64, _: usize) -> isize { Knap::cap(*s) as isize }
     fn use_value(&self) -> bool { true }
